@@ -136,7 +136,7 @@ u_char *asn_parse_string(u_char *data, int *datalength, u_char *type, u_char *st
         cv_disjoint(type, 1, strlength, sizeof(int)) && cv_disjoint(string, cap, strlength, sizeof(int)), "asn_parse_string: arguments disjoint");
     snmp_errno = nondet_int();
     *type = nondet_uchar();
-    if (cap > 0) __CPROVER_havoc_slice(string, cap);     /* at most the caller's capacity is written */
+    __CPROVER_havoc_object(string);                      /* assigns: __CPROVER_object_whole(string) */
     if (nondet_bool()) return NULL;                      /* *datalength, *strlength unchanged */
     long h = nondet_long(), len = nondet_long();         /* sp_tlv_ok(data, V, cap) */
     __CPROVER_assume(2 <= h && h <= 6 && 0 <= len && len <= (long)cap && h + len <= (long)V);
@@ -162,7 +162,7 @@ u_char *asn_parse_objid(u_char *data, int *datalength, u_char *type, oid *objid,
         "asn_parse_objid: arguments disjoint");
     snmp_errno = nondet_int();
     *type = nondet_uchar();
-    __CPROVER_havoc_slice(objid, (size_t)cap * sizeof(oid));   /* at most the caller's capacity is written */
+    __CPROVER_havoc_object(objid);                       /* assigns: __CPROVER_object_whole(objid) */
     if (nondet_bool()) {
         long end = nondet_long(), k = nondet_long();     /* end = sp_hdr + sp_len_val, sp_tlv_ok(data, V, VMAX) */
         int nl = nondet_int();
